@@ -104,7 +104,8 @@ def execute(sc):
     marks = []
     r = scen.run_natural(b, save_at, atol=sc["atol"], rtol=sc["rtol"], dt0=sc["dt0"], eps=sc["eps"],
                          error_spec=sc["error"], control_spec=sc["control"], fault=dict(sc["fault"]), rec=Recorder(),
-                         keep_states=True, on_call=lambda: marks.append(len(b.vf_log)))
+                         keep_states=True, on_call=lambda: marks.append(len(b.vf_log)),
+                         stop_after_calls=60)  # the first 40 estimator calls are decided; a run needing thousands of steps is cut
     model0 = Model(b.model.prior, b.poly, cfg["lin"], cfg["ssm"], "none", damp=cfg["damp"])
     viol, probes, stats = [], {}, {}
     calls = r.err.calls[:40]
